@@ -274,8 +274,16 @@ func suiteFilter(r *Rng, n int, thorough bool, o *Out) {
 		// encode before evaluating: checkSlice sorts lists in place
 		opS := lst("filter", "eval", sxResView(soft), fs)
 		opW := lst("filter", "eval", sxResView(wr), fs)
-		outS := evalFilter(f, soft)
-		outW := evalFilter(f, wr)
+		var evS, evW jsonapi.Resource = soft, wr
+		if !untouched && r.chance(1, 4) {
+			// the filter is asked about COPIES of the resources just encoded: a copy holds
+			// the source's values, so the verdicts are the source's
+			guard(func() { evS = soft.Copy() })
+			guard(func() { evW = wr.Copy() })
+			o.stat("res.copied-before-filter")
+		}
+		outS := evalFilter(f, evS)
+		outW := evalFilter(f, evW)
 		pv := "ok"
 		if outS != outW {
 			pv = "FAIL:verdict depends on the resource implementation (soft " + outS + ", wrapped " + outW + ")"
